@@ -218,8 +218,22 @@ func (c *CheckCtx) modelCheckConc(progs map[string][]string, calls []concCall, o
 	if err != nil {
 		return nil, "", err
 	}
+	b := concGenModule("MC_Conc_gen", "GoSnapsConc", progs, calls, order)
+	os.WriteFile(filepath.Join(dir, "MC_Conc_gen.tla"), []byte(b), 0o644)
+	cfg := "SPECIFICATION Spec\n" + concConstants + "INVARIANTS Serialisable NeverTorn\nCHECK_DEADLOCK FALSE\n"
+	os.WriteFile(filepath.Join(dir, "MC_Conc.cfg"), []byte(cfg), 0o644)
+	dump := filepath.Join(dir, "cex.json")
+	res, err := runTLC(dir, "MC_Conc_gen.tla", "MC_Conc.cfg", 4, 10*time.Minute, "-dumpTrace", "json", dump)
+	if err != nil {
+		return res, "", err
+	}
+	return res, dump, nil
+}
+
+// concGenModule writes the constants a .cfg file cannot express (sequences, functions)
+func concGenModule(name, extends string, progs map[string][]string, calls []concCall, order []int) string {
 	var b strings.Builder
-	b.WriteString("---- MODULE MC_Conc_gen ----\nEXTENDS GoSnapsConc\n")
+	fmt.Fprintf(&b, "---- MODULE %s ----\nEXTENDS %s\n", name, extends)
 	var gs, tests, vals, upds []string
 	for _, cc := range calls {
 		gs = append(gs, strconv.Quote(cc.G))
@@ -239,15 +253,84 @@ func (c *CheckCtx) modelCheckConc(progs map[string][]string, calls []concCall, o
 		pk = append(pk, fmt.Sprintf("%s :> %s", strconv.Quote(k), tlaSeq(progs[k])))
 	}
 	fmt.Fprintf(&b, "mcProg == %s\nmcPrefix == %d\n====\n", strings.Join(pk, " @@ "), commonPrefix(progs))
-	os.WriteFile(filepath.Join(dir, "MC_Conc_gen.tla"), []byte(b.String()), 0o644)
-	cfg := "SPECIFICATION Spec\nCONSTANTS\n  Gs <- mcGs\n  TestOf <- mcTestOf\n  ValOf <- mcValOf\n  UpdOf <- mcUpdOf\n  InitFile <- mcInit\n  Prog <- mcProg\n  PrefixLen <- mcPrefix\nINVARIANTS Serialisable NeverTorn\nCHECK_DEADLOCK FALSE\n"
-	os.WriteFile(filepath.Join(dir, "MC_Conc.cfg"), []byte(cfg), 0o644)
-	dump := filepath.Join(dir, "cex.json")
-	res, err := runTLC(dir, "MC_Conc_gen.tla", "MC_Conc.cfg", 4, 10*time.Minute, "-dumpTrace", "json", dump)
-	if err != nil {
-		return res, "", err
+	return b.String()
+}
+
+const concConstants = "CONSTANTS\n  Gs <- mcGs\n  TestOf <- mcTestOf\n  ValOf <- mcValOf\n  UpdOf <- mcUpdOf\n  InitFile <- mcInit\n  Prog <- mcProg\n  PrefixLen <- mcPrefix\n"
+
+// validateConcLogs: the primitive logs of real gated executions of ONE configuration must be
+// behaviours of GoSnapsConc with the extracted programs (TraceConc.tla). Disagreement = MODEL-DRIFT.
+func (c *CheckCtx) validateConcLogs(progs map[string][]string, cases []*concCase) (int, []string, error) {
+	if len(cases) == 0 {
+		return 0, nil, nil
 	}
-	return res, dump, nil
+	dir, err := specDir(c.Sc, c.Sc.Next("tc"))
+	if err != nil {
+		return 0, nil, err
+	}
+	calls, order := cases[0].calls, cases[0].order
+	os.WriteFile(filepath.Join(dir, "MC_TraceConc_gen.tla"), []byte(concGenModule("MC_TraceConc_gen", "TraceConc", progs, calls, order)), 0o644)
+	os.WriteFile(filepath.Join(dir, "TraceConc.cfg"), []byte("SPECIFICATION TSpec\n"+concConstants+"CHECK_DEADLOCK FALSE\n"), 0o644)
+	a := newAbsCtx(c.Sc.Root, nil)
+	var buf bytes.Buffer
+	enc := json.NewEncoder(&buf)
+	enc.SetEscapeHTML(false)
+	n := 0
+	for i, cs := range cases {
+		if cs.run.Note != "" {
+			continue
+		}
+		log := []any{}
+		for _, r := range cs.run.Log {
+			log = append(log, map[string]string{"g": r.G, "op": r.Op})
+		}
+		fl, fnl := splitFile(cs.run.Final)
+		outs := map[string]string{}
+		for _, cc := range cs.calls {
+			o := "none"
+			if len(cs.run.Outcomes[cc.Test]) > 0 {
+				o = cs.run.Outcomes[cc.Test][0]
+			}
+			outs[cc.G] = o
+		}
+		enc.Encode(map[string]any{"n": i, "log": log, "final": map[string]any{"lines": a.lines(fl), "nl": fnl}, "outs": outs})
+		n++
+	}
+	if n == 0 {
+		return 0, nil, nil
+	}
+	os.WriteFile(filepath.Join(dir, "concruns.ndjson"), buf.Bytes(), 0o644)
+	res, err := runTLC(dir, "MC_TraceConc_gen.tla", "TraceConc.cfg", 1, 10*time.Minute)
+	if err != nil {
+		return 0, nil, err
+	}
+	rb, err := os.ReadFile(filepath.Join(dir, "result.json"))
+	if err != nil {
+		return 0, nil, inconclusive("TraceConc wrote no result:\n%s", tail([]byte(res.Output), 1500))
+	}
+	var out struct {
+		Bad []struct {
+			Run  int    `json:"run"`
+			At   int    `json:"at"`
+			What string `json:"what"`
+			Op   string `json:"op"`
+			G    string `json:"g"`
+		} `json:"bad"`
+		Runs int `json:"runs"`
+	}
+	if err := json.Unmarshal(rb, &out); err != nil {
+		return 0, nil, err
+	}
+	var drift []string
+	for _, b := range out.Bad {
+		kinds := []string{}
+		for _, cc := range calls {
+			kinds = append(kinds, cc.G+":"+cc.Kind)
+		}
+		drift = append(drift, fmt.Sprintf("action=%s.%s (%s; calls %v, schedule %v)", b.G, b.Op, b.What, kinds, scheduleOfLog(cases[b.Run].run.Log)))
+	}
+	os.RemoveAll(dir)
+	return out.Runs, drift, nil
 }
 
 // scheduleOfDump reads the goroutine sequence of a TLC counterexample (the `step` variable)
@@ -558,6 +641,7 @@ func checkC06(c *CheckCtx) error {
 		pairs = append(pairs, pairT{calls, []int{0, 1}})
 	}
 	// schedules enumerated directly on the real code
+	logsValidated := 0
 	var all []*concCase
 	for i, p := range pairs {
 		if len(p.calls) > 2 && i%4 != 0 {
@@ -580,7 +664,16 @@ func checkC06(c *CheckCtx) error {
 			}
 		}
 		all = append(all, cs...)
+		if extractionOK && len(p.calls) == 2 && !p.calls[0].Second {
+			n, drift, err := c.validateConcLogs(progs, cs)
+			if err != nil {
+				return err
+			}
+			logsValidated += n
+			c.Drifts = append(c.Drifts, drift...)
+		}
 	}
+	c.Stats["primitive_logs_validated_against_GoSnapsConc"] = logsValidated
 	if len(all) > 0 {
 		x := all[len(all)/2]
 		c.sample(map[string]any{"calls": x.calls, "real_schedule": scheduleOfLog(x.run.Log), "primitives": opsOf(x.run.Log), "outcomes": x.run.Outcomes})
